@@ -15,6 +15,8 @@ from .cfg import flow
 from .model import Fn, Prog, T
 
 OPTIONAL_NAV = {"get_child", "token_first", "token_next", "token_prev", "token_next_by", "token_matching", "get_alias", "get_real_name", "get_parent_name", "get_name"}
+OPTIONAL_TEXT = {"get_alias", "get_real_name", "get_parent_name", "get_name", "_get_first_name"}  # sqlparse: Optional[str]
+NAME_TAKERS = {"Column", "Table", "Schema", "Path", "SqlParseColumn", "SqlFluffColumn", "escape_identifier_name"}
 SEQ_SOURCES = {"segments", "tokens"}
 SEQ_CALLS = {"get_children", "list_child_segments", "get_identifiers", "get_sublists", "get_parameters", "recursive_crawl", "list_subqueries", "list_join_clause", "get_subquery_parentheses"}
 NONEMPTY_CALLS = {"split", "rsplit", "splitlines", "partition", "rpartition"}
@@ -299,3 +301,25 @@ def scan_function(prog: Prog, fn: Fn) -> Iterator[Site]:
             elif _in_try_catching(prog, n, ("AttributeError",)):
                 site.discharged = "inside try/except AttributeError"
             yield site
+
+        # ---- possibly-None text handed to a name-taking constructor / the normaliser ---------------------------------------
+        if isinstance(n, ast.Call) and n.args:
+            callee = n.func.attr if isinstance(n.func, ast.Attribute) else n.func.id if isinstance(n.func, ast.Name) else ""
+            if callee in NAME_TAKERS:
+                a = n.args[0]
+                srcs = [a]
+                if isinstance(a, ast.Name):
+                    srcs = [getattr(node, "value", None) for kind, node in fl.reaching_defs(n, a.id) if kind in ("assign", "walrus")]
+                opt = None
+                for v in srcs:
+                    if isinstance(v, ast.Call):
+                        nm = v.func.attr if isinstance(v.func, ast.Attribute) else v.func.id if isinstance(v.func, ast.Name) else ""
+                        if nm in OPTIONAL_TEXT:
+                            opt = f"{nm}()"
+                if opt is not None:
+                    site = Site(fn, n, opt, f"optional-arg:{callee}", f"`{u(n)[:60]}` hands a value that may be None to {callee}, which treats it as text")
+                    facts = fl.facts_for(n)
+                    at = u(a)
+                    if any((t == at and p) or (t == f"{at} is not None" and p) or (t == f"{at} is None" and not p) for t, p in facts):
+                        site.discharged = "dominated by a not-None / truthiness proof"
+                    yield site
